@@ -307,10 +307,11 @@ Proof.
     + destruct (mem x g2).
       * destruct (k + 1 <=? k + Z.of_nat 0) eqn:E; lia.
       * rewrite (bid_from_shift P (k + 1) x) by lia.
-        destruct (bid_from_range (k + 1) P x ltac:(lia)) as [E|E].
-        -- rewrite E. cbn [Z.eqb]. destruct (-1 <=? k + Z.of_nat 0) eqn:E'; lia.
-        -- destruct (bid_from (k + 1) P x =? -1) eqn:E1; [lia|].
-           destruct (bid_from (k + 1) P x + 1 <=? k + Z.of_nat 0) eqn:E2; lia.
+        pose proof (bid_from_range (k + 1) P x ltac:(lia)) as R.
+        set (b := bid_from (k + 1) P x) in *.
+        destruct (b =? -1) eqn:E1.
+        -- destruct (-1 <=? k + Z.of_nat 0) eqn:E2; lia.
+        -- destruct (b + 1 <=? k + Z.of_nat 0) eqn:E2; lia.
   - cbn [merge_at bid_from]. destruct (mem x g).
     + destruct (k <=? k + Z.of_nat (S i)) eqn:E; lia.
     + rewrite IH by (simpl in Hl; lia).
